@@ -129,7 +129,7 @@ def generate(rs: int, tier: str, index: int) -> dict:
         d2 = ch.sub("swapped").choice([">f8", ">i8", ">u4", ">c16", ">f4", ">i2", ">u8"])
     step: Dict[str, Any] = {"id": 0, "k": kind, "d1": d1, "d2": d2}
     if kind == "ctor":
-        how = ch.choice(["polynomial_dtype", "aspolynomial_dtype", "from_attributes_dtype", "from_attributes_mixed", "dict", "variable", "symbols", "astype", "from_data", "aspolynomial_poly_dtype", "polynomial_list", "aspolynomial_poly_names_dtype"])
+        how = ch.choice(["polynomial_dtype", "aspolynomial_dtype", "from_attributes_dtype", "from_attributes_mixed", "dict", "variable", "symbols", "astype", "from_data", "aspolynomial_poly_dtype", "polynomial_list", "aspolynomial_poly_names_dtype", "empty_dict"])
         step["value"] = ch.sub("v").below(3)
         if cast_cell:
             how = CASTS[(index // len(DTYPES) ** 2) % len(CASTS)]
@@ -270,8 +270,9 @@ def _strip(m: dict) -> dict:
 class Expect:
     """What the result must be: dtype, shape, canonical coefficients — or an exception."""
 
-    def __init__(self, dtype: Any = None, shape: Any = None, canon: Optional[dict] = None, raises: bool = False, names_exact: Optional[tuple] = None):
+    def __init__(self, dtype: Any = None, shape: Any = None, canon: Optional[dict] = None, raises: bool = False, names_exact: Optional[tuple] = None, may_raise: bool = False):
         self.dtype, self.shape, self.canon, self.raises = dtype, shape, canon, raises
+        self.may_raise = may_raise
 
 
 class Runner:
@@ -347,6 +348,22 @@ class Runner:
                 dct = {tuple(e): c for e, c in zip(p["exponents"], cols)}
                 return (lambda: numpoly.polynomial(dct, names=tuple(p["names"]), dtype=d2)), \
                     Expect(d2, tuple(p["shape"]), _strip({key: v.astype(d2) for key, v in _model(p).items()})), how, where
+            if how == "empty_dict":
+                # no terms at all: refusing is fine; a value that comes back is the zero polynomial of the requested type,
+                # whatever fresh memory holds
+                return (lambda: numpoly.polynomial({}, dtype=d2)), Expect(d2, (), {}, may_raise=True), how, {"d2": step["d2"]}
+            if how in ("variable", "symbols") and step.get("value", 0) % 2:
+                # history: the indeterminates were asked for before and the caller wrote into what it got
+                def thunk_again():
+                    first = numpoly.variable(2, dtype=d2) if how == "variable" else numpoly.symbols("q1", dtype=d2)
+                    raw = first.values
+                    for key in raw.dtype.names or ():
+                        raw[key][...] = 1
+                    return numpoly.variable(2, dtype=d2) if how == "variable" else numpoly.symbols("q1", dtype=d2)
+
+                if how == "variable":
+                    return thunk_again, Expect(d2, (2,), {frozenset({("q0", 1)}): numpy.array([1, 0]).astype(d2), frozenset({("q1", 1)}): numpy.array([0, 1]).astype(d2)}), how, {"d2": step["d2"]}
+                return thunk_again, Expect(d2, (), {frozenset({("q1", 1)}): numpy.array(1).astype(d2)}), how, {"d2": step["d2"]}
             if how == "variable":
                 return (lambda: numpoly.variable(2, dtype=d2)), Expect(d2, (2,), {frozenset({("q0", 1)}): numpy.array([1, 0]).astype(d2), frozenset({("q1", 1)}): numpy.array([0, 1]).astype(d2)}), how, {"d2": step["d2"]}
             if how == "symbols":
@@ -613,7 +630,7 @@ class Runner:
             tag = f"fill={fill}" + (f" redzone_hits={hits}" if hits else "")
             if outcome[0] == "raised":
                 fps.append(("raised", outcome[1]))
-                if not exp.raises:
+                if not exp.raises and not exp.may_raise:
                     self.violate("raises-where-numpy-works", opname, sid, f"[{tag}] {outcome[1]}: {outcome[2]}", dict(where, exc=outcome[1]))
                 continue
             res = outcome[1]
